@@ -79,6 +79,19 @@ func ruleTCond(c *Ctx) {
 			c.Undecided("T-cond", h.fn, token.NoPos, "not found")
 			continue
 		}
+		// a handler that only hands on to a helper shared by IF and NOTIF (beginConditional(op, t, true)): the
+		// helper is read with its boolean parameter bound to what this handler passes
+		bound := map[string]bool{}
+		if hf, args := soleDelegate(fn); hf != nil {
+			for k := range hf.Params {
+				if k < len(args) {
+					if kc, isK := args[k].(*ssa.Const); isK && kc.Value != nil && kc.Value.Kind() == constant.Bool {
+						bound[fmt.Sprintf("p%d", k)] = constant.BoolVal(kc.Value)
+					}
+				}
+			}
+			fn = hf
+		}
 		n++
 		vals, covers := elsePushes(fn)
 		c.Check(len(vals) == 1 && vals[0] == "false" && covers, "T-cond", h.fn+"/else-stack", fn.Pos(), "pushes 'no else seen yet' on every successful way out",
@@ -113,7 +126,18 @@ func ruleTCond(c *Ctx) {
 					t, truth := stripNot(pc.Cond, pc.Truth)
 					an := atomName(t)
 					var val, known bool
+					// popped == flag / popped != flag, the flag being the helper's bound parameter
+					if t.K == "bin" && (t.Op == token.EQL || t.Op == token.NEQ) && len(t.Args) == 2 {
+						for k := 0; k < 2; k++ {
+							if t.Args[k].K == "param" && strings.Contains(atomName(t.Args[1-k]), "popIfBool(") {
+								if bv, okb := bound[t.Args[k].Name]; okb {
+									val, known = (popped == bv) == (t.Op == token.EQL), true
+								}
+							}
+						}
+					}
 					switch {
+					case known:
 					case strings.Contains(an, ".shouldExec("):
 						val, known = exec, true
 					case strings.Contains(an, ".isBranchExecuting("):
